@@ -330,6 +330,209 @@ theorem biPow_no_hazard (args : List (Res Val)) (h : ArgsOk args) : (biPow (m :=
       | haz_step)
   · rfl
 
+/-! #### second dispatch table (round C10): num, isnum, bool, isnull, typeof, sign, libm functions, round, max/min, mod, atan2, clamp -/
+
+theorem numOfString_no_hazard (s : Bytes) : (numOfString s).isHazard = false := by
+  unfold numOfString; split <;> rfl
+
+theorem biNum_no_hazard (args : List (Res Val)) (h : ArgsOk args) : (biNum (m := Res) args).isHazard = false := by
+  unfold biNum
+  split
+  · rfl
+  · have h0 := h.head
+    try simp only [liftM_res, liftR_res, argTypeErr_res, rerr_res, Res.bind_err, Res.bind_unm]
+    repeat' (first | (with_reducible exact numOfString_no_hazard _) | haz_step)
+
+theorem nonnull_of_or {a : Val} {b : Bool} (h : ¬(a.isNull || b) = true) : a.isNull = false := by
+  simp only [Bool.or_eq_true, not_or, Bool.not_eq_true] at h
+  exact h.1
+
+theorem biIsnum_no_hazard (args : List (Res Val)) (h : ArgsOk args) : (biIsnum (m := Res) args).isHazard = false := by
+  unfold biIsnum
+  split
+  · have h0 := h.head
+    try simp only [liftM_res, liftR_res, argTypeErr_res, rerr_res, Res.bind_err, Res.bind_unm]
+    repeat' (first
+      | (with_reducible exact asStr_no_hazard ‹_› (nonnull_of_or ‹_›))
+      | (with_reducible exact asRaw_no_hazard ‹_› (nonnull_of_or ‹_›))
+      | haz_step)
+  · rfl
+
+theorem biBool_no_hazard (args : List (Res Val)) (h : ArgsOk args) : (biBool (m := Res) args).isHazard = false := by
+  unfold biBool
+  split
+  · rfl
+  · have h0 := h.head
+    try simp only [liftM_res, liftR_res, argTypeErr_res, rerr_res, Res.bind_err, Res.bind_unm]
+    repeat' haz_step
+
+theorem biIsnull_no_hazard (args : List (Res Val)) (h : ArgsOk args) : (biIsnull (m := Res) args).isHazard = false := by
+  unfold biIsnull
+  split
+  · have h0 := h.head
+    try simp only [liftM_res, liftR_res, argTypeErr_res, rerr_res, Res.bind_err, Res.bind_unm]
+    repeat' haz_step
+  · rfl
+
+theorem biTypeof_no_hazard (args : List (Res Val)) (h : ArgsOk args) : (biTypeof (m := Res) args).isHazard = false := by
+  unfold biTypeof
+  split
+  · have h0 := h.head
+    try simp only [liftM_res, liftR_res, argTypeErr_res, rerr_res, Res.bind_err, Res.bind_unm]
+    repeat' haz_step
+  · rfl
+
+theorem biSign_no_hazard (args : List (Res Val)) (h : ArgsOk args) : (biSign (m := Res) args).isHazard = false := by
+  unfold biSign
+  split
+  · have h0 := h.head
+    try simp only [liftM_res, liftR_res, argTypeErr_res, rerr_res, Res.bind_err, Res.bind_unm]
+    repeat' haz_step
+  · rfl
+
+theorem mathMap_no_hazard (fn : Float → Float) (args : List (Res Val)) (h : ArgsOk args) : (mathMap (m := Res) fn args).isHazard = false := by
+  unfold mathMap
+  split
+  · have h0 := h.head
+    try simp only [liftM_res, liftR_res, argTypeErr_res, rerr_res, Res.bind_err, Res.bind_unm]
+    repeat' haz_step
+  · rfl
+
+theorem numPair_nonnull {a0 a1 : Val} (h : ¬(isNumMajor a0 && isNumMajor a1 && (a0.isNull || a1.isNull)) = true)
+    (h0 : isNumMajor a0 = true) (h1 : isNumMajor a1 = true) : a0.isNull = false ∧ a1.isNull = false := by
+  simp only [h0, h1, Bool.true_and, Bool.or_eq_true, not_or, Bool.not_eq_true] at h
+  exact h
+
+/-- The typed accessors of max / min / mod / atan2 are reached only for two non-null numbers: the
+combined null test of the prologue covers every cell that dereferences. -/
+theorem numPair_no_hazard (ty : Ty) {a0 a1 : Val} (w0 : a0.tabOk = true) (w1 : a1.tabOk = true) :
+    (numPair ty a0 a1).isHazard = false := by
+  unfold numPair
+  split
+  · rfl
+  · split
+    · rfl
+    · rename_i hn
+      split
+      · rfl
+      · rename_i hm0
+        have i0 : isNumMajor a0 = true := by simp [isNumMajor, hm0]
+        split
+        · rfl
+        · rename_i hm1
+          have nn := numPair_nonnull hn i0 (by simp [isNumMajor, hm1])
+          exact isHazard_bind _ _ (asInt_no_hazard w0 nn.1) (fun _ _ => isHazard_bind _ _ (asInt_no_hazard w1 nn.2) (fun _ _ => rfl))
+        · rename_i hm1
+          have nn := numPair_nonnull hn i0 (by simp [isNumMajor, hm1])
+          exact isHazard_bind _ _ (asInt_no_hazard w0 nn.1) (fun _ _ => isHazard_bind _ _ (asNum_no_hazard w1 nn.2) (fun _ _ => rfl))
+        · rfl
+      · rename_i hm0
+        have i0 : isNumMajor a0 = true := by simp [isNumMajor, hm0]
+        split
+        · rfl
+        · rename_i hm1
+          have nn := numPair_nonnull hn i0 (by simp [isNumMajor, hm1])
+          exact isHazard_bind _ _ (asNum_no_hazard w0 nn.1) (fun _ _ => isHazard_bind _ _ (asInt_no_hazard w1 nn.2) (fun _ _ => rfl))
+        · rename_i hm1
+          have nn := numPair_nonnull hn i0 (by simp [isNumMajor, hm1])
+          exact isHazard_bind _ _ (asNum_no_hazard w0 nn.1) (fun _ _ => isHazard_bind _ _ (asNum_no_hazard w1 nn.2) (fun _ _ => rfl))
+        · rfl
+      · rfl
+
+theorem biMinMax_no_hazard (b : Bool) (args : List (Res Val)) (h : ArgsOk args) : (biMinMax (m := Res) b args).isHazard = false := by
+  unfold biMinMax
+  split
+  · have h0 := h.head
+    have h1 := h.tail.head
+    try simp only [liftM_res, liftR_res, argTypeErr_res, rerr_res, Res.bind_err, Res.bind_unm]
+    refine isHazard_bind_arg _ _ h0 (fun a0 w0 => ?_)
+    refine isHazard_bind_arg _ _ h1 (fun a1 w1 => ?_)
+    refine isHazard_bind _ _ (numPair_no_hazard _ w0 w1) (fun p _ => ?_)
+    cases p <;> repeat' (first | (with_reducible exact imod_no_hazard _ _) | haz_step)
+  · rfl
+
+theorem biMod_no_hazard (args : List (Res Val)) (h : ArgsOk args) : (biMod (m := Res) args).isHazard = false := by
+  unfold biMod
+  split
+  · have h0 := h.head
+    have h1 := h.tail.head
+    try simp only [liftM_res, liftR_res, argTypeErr_res, rerr_res, Res.bind_err, Res.bind_unm]
+    refine isHazard_bind_arg _ _ h0 (fun a0 w0 => ?_)
+    refine isHazard_bind_arg _ _ h1 (fun a1 w1 => ?_)
+    refine isHazard_bind _ _ (numPair_no_hazard _ w0 w1) (fun p _ => ?_)
+    cases p <;> repeat' (first | (with_reducible exact imod_no_hazard _ _) | haz_step)
+  · rfl
+
+theorem biAtan2_no_hazard (args : List (Res Val)) (h : ArgsOk args) : (biAtan2 (m := Res) args).isHazard = false := by
+  unfold biAtan2
+  split
+  · have h0 := h.head
+    have h1 := h.tail.head
+    try simp only [liftM_res, liftR_res, argTypeErr_res, rerr_res, Res.bind_err, Res.bind_unm]
+    refine isHazard_bind_arg _ _ h0 (fun a0 w0 => ?_)
+    refine isHazard_bind_arg _ _ h1 (fun a1 w1 => ?_)
+    refine isHazard_bind _ _ (numPair_no_hazard _ w0 w1) (fun p _ => ?_)
+    cases p <;> repeat' (first | (with_reducible exact imod_no_hazard _ _) | haz_step)
+  · rfl
+
+theorem clamp_nonnull {a0 a1 a2 : Val} (h : ¬(a0.isNull || a1.isNull || a2.isNull) = true) :
+    a0.isNull = false ∧ a1.isNull = false ∧ a2.isNull = false := by
+  simp only [Bool.or_eq_true, not_or, Bool.not_eq_true] at h
+  exact ⟨h.1.1, h.1.2, h.2⟩
+
+theorem biClamp_no_hazard (args : List (Res Val)) (h : ArgsOk args) : (biClamp (m := Res) args).isHazard = false := by
+  unfold biClamp
+  split
+  · have h0 := h.head
+    have h1 := h.tail.head
+    have h2 := h.tail.tail.head
+    try simp only [liftM_res, liftR_res, argTypeErr_res, rerr_res, Res.bind_err, Res.bind_unm]
+    refine isHazard_bind_arg _ _ h0 (fun a0 w0 => ?_)
+    refine isHazard_bind_arg _ _ h1 (fun a1 w1 => ?_)
+    refine isHazard_bind_arg _ _ h2 (fun a2 w2 => ?_)
+    split
+    · rfl
+    · split
+      · rfl
+      · rename_i hn
+        have nn := clamp_nonnull hn
+        exact isHazard_bind _ _ (asInt_no_hazard w0 nn.1) (fun _ _ => isHazard_bind _ _ (asInt_no_hazard w1 nn.2.1)
+          (fun _ _ => isHazard_bind _ _ (asInt_no_hazard w2 nn.2.2) (fun _ _ => rfl)))
+    · split
+      · rfl
+      · rename_i hn
+        have nn := clamp_nonnull hn
+        exact isHazard_bind _ _ (asNum_no_hazard w0 nn.1) (fun _ _ => isHazard_bind _ _ (asNum_no_hazard w1 nn.2.1)
+          (fun _ _ => isHazard_bind _ _ (asNum_no_hazard w2 nn.2.2) (fun _ _ => rfl)))
+    · rfl
+  · rfl
+
+theorem biRound_no_hazard (args : List (Res Val)) (h : ArgsOk args) : (biRound (m := Res) args).isHazard = false := by
+  unfold biRound
+  split
+  · have h0 := h.head
+    try simp only [liftM_res, liftR_res, argTypeErr_res, rerr_res, Res.bind_err, Res.bind_unm]
+    repeat' haz_step
+  · have h0 := h.head
+    have h1 := h.tail.head
+    try simp only [liftM_res, liftR_res, argTypeErr_res, rerr_res, Res.bind_err, Res.bind_unm]
+    repeat' haz_step
+  · rfl
+
+/-- The second dispatch table: every built-in it models, every argument list. -/
+theorem evalBuiltinX_no_hazard_of (name : String) (args : List (Res Val)) (r : Res Val)
+    (h : ArgsOk args) (hr : evalBuiltinX (m := Res) name args = some r) : r.isHazard = false := by
+  unfold evalBuiltinX at hr
+  split at hr
+  all_goals first
+    | (cases hr; first
+        | exact biNum_no_hazard args h | exact biIsnum_no_hazard args h | exact biBool_no_hazard args h
+        | exact biIsnull_no_hazard args h | exact biTypeof_no_hazard args h | exact biSign_no_hazard args h
+        | exact mathMap_no_hazard _ args h | exact biRound_no_hazard args h | exact biMinMax_no_hazard _ args h
+        | exact biMod_no_hazard args h | exact biAtan2_no_hazard args h | exact biClamp_no_hazard args h
+        | rfl)
+    | cases hr
+
 /-- Dispatch: EVERY modelled built-in. (`substr`, `subraw`, `hex` were excluded here while their signed index
 arithmetic was unguarded — former findings C01.bi.substr.overflow / subraw.overflow / hex.overflow; `abs` and `pow`
 were not modelled — former findings C01.bi.abs.overflow / C01.bi.pow.floatcast.) The length hypothesis is only
@@ -347,6 +550,7 @@ theorem evalBuiltin_no_hazard_of (fmt : F64 → Bytes) (name : String) (args : L
         | exact biHex_no_hazard args h | exact biAbs_no_hazard args h | exact biPow_no_hazard args h
         | exact biHash_no_hazard args h | exact biChr_no_hazard args h | exact biRaw_no_hazard args h
         | exact biInt_no_hazard args h | exact biB64_no_hazard _ args h | exact biStr_no_hazard fmt args h)
+    | exact evalBuiltinX_no_hazard_of name args r h hr
     | cases hr
 
 
